@@ -300,8 +300,103 @@ func C13(r *core.Run) {
 		})
 	})
 	deaths = append(deaths, d2...)
+	// --all through the CLI: every assignment of file states to three test files x the four
+	// combinations of --check and -o github. Each file must end up as the single-file path leaves
+	// it (which the sweep judges against the reference), check modes must not write, and the exit
+	// status of a check must say whether some file would change.
+	type allRes struct {
+		Runs int
+		Bad  []string
+	}
+	c13States := [][2]string{
+		{"tests:\n  - test_id: 1\n  - test_id: 2\n", "tests:\n  - test_id: 1\n  - test_id: 2\n"},
+		{"tests:\n  - test_id: 7\n    desc: x\n  - test_id: 9\n", "tests:\n  - test_id: 1\n    desc: x\n  - test_id: 2\n"},
+		{"tests:\n  - test_id: 1\n\n\n", "tests:\n  - test_id: 1\n"},
+		{"tests:\n  - test_title: 920100-4", "tests:\n  - test_title: FILE-1\n"},
+	}
+	c13Names := []string{"REQUEST-123-TEST/123456.yaml", "REQUEST-123-TEST/123457.yml", "REQUEST-223-OTHER/223456.yaml"}
+	alls, d3 := core.Parallel(r, "all", spec, r.Workers, func(in in, shard, n int, emit func(allRes)) {
+		wd := filepath.Join(in.Dir, fmt.Sprint("a", shard))
+		var o allRes
+		idx := 0
+		k := len(c13States)
+		for a := 0; a < k*k*k; a++ {
+			for mode := 0; mode < 4; mode++ {
+				if idx++; idx%n != shard {
+					continue
+				}
+				st := []int{a % k, a / k % k, a / k / k}
+				os.RemoveAll(wd)
+				t := miniCRS()
+				delete(t, "tests/regression/tests/REQUEST-123-TEST/123456.yaml")
+				delete(t, "tests/regression/tests/REQUEST-123-TEST/123457.yml")
+				t["tests/regression/tests/REQUEST-223-OTHER/notes.yaml"] = "tests:\n  - test_id: 5\n"
+				needs := false
+				for i, nme := range c13Names {
+					t["tests/regression/tests/"+nme] = c13States[st[i]][0]
+					needs = needs || c13States[st[i]][0] != c13States[st[i]][1]
+				}
+				t.Materialise(wd)
+				before := core.Snapshot(wd)
+				check, github := mode&1 != 0, mode&2 != 0
+				var args []string
+				if github {
+					args = append(args, "-o", "github")
+				}
+				args = append(args, "-d", wd, "util", "renumber-tests", "--all")
+				if check {
+					args = append(args, "--check")
+				}
+				r.Inflight(fmt.Sprint(st, args))
+				res := core.RunCLI(r.Crs, wd, "", nil, args...)
+				o.Runs++
+				bad := func(f string, a ...any) {
+					o.Bad = append(o.Bad, fmt.Sprintf("file states %v, `%s`: ", st, strings.Join(args[len(args)-3:], " "))+fmt.Sprintf(f, a...))
+				}
+				if check {
+					if ch := before.Diff(core.Snapshot(wd), true); len(ch) > 0 {
+						bad("--check changed %v", ch)
+					}
+					if (res.Exit != 0) != needs {
+						bad("--check exits %d although a rewrite would change files: %v", res.Exit, needs)
+					}
+					continue
+				}
+				if res.Exit != 0 {
+					bad("exit %d: %s", res.Exit, tailStr(res.Stderr, 200))
+				}
+				for i, nme := range c13Names {
+					b, _ := os.ReadFile(filepath.Join(wd, "tests/regression/tests", nme))
+					want := strings.Replace(c13States[st[i]][1], "FILE", filepath.Base(nme)[:6], 1)
+					if string(b) != want {
+						bad("%s is %q, expected %q", nme, b, want)
+					}
+				}
+				if b, _ := os.ReadFile(filepath.Join(wd, "tests/regression/tests/REQUEST-223-OTHER/notes.yaml")); string(b) != "tests:\n  - test_id: 5\n" {
+					bad("notes.yaml rewritten")
+				}
+			}
+		}
+		emit(o)
+	})
+	deaths = append(deaths, d3...)
 	if r.IsWorker() {
 		return
+	}
+	allRuns := 0
+	seenAll := map[string]bool{}
+	for _, a := range alls {
+		allRuns += a.Runs
+		for _, b := range a.Bad {
+			// one report per message shape (the states differ)
+			_, msg, _ := strings.Cut(b, "`: ")
+			key := strings.Join(strings.Fields(msg)[:2], " ")
+			if seenAll[key] {
+				continue
+			}
+			seenAll[key] = true
+			r.Report(core.Violation{Clause: "all-agrees-with-single-file", Key: b, What: "renumber-tests --all: " + b})
+		}
 	}
 	for _, d := range deaths {
 		r.HarnessError("worker %s/%d %s on %q: %s", d.Stage, d.Shard, d.Kind, d.Case, tailStr(d.Log, 300))
@@ -344,14 +439,15 @@ func C13(r *core.Run) {
 		r.Report(core.Violation{Clause: f.Clause, Key: fmt.Sprintf("%q", f.X), What: fmt.Sprintf("test file %q: %s", f.X, f.Why), Detail: f,
 			Repro: []string{fmt.Sprintf("printf %%s %s > tests/regression/tests/T/123456.yaml; crs-toolchain util renumber-tests 123456", core.ShellQuote(f.X))}})
 	}
-	r.Cov["evaluations"] = tot.Ops
+	r.Cov["evaluations"] = tot.Ops + allRuns
+	r.Cov["all_runs_cli"] = allRuns
 	r.Cov["states"] = tot.Files * 3
 	r.Cov["transitions"] = tot.Ops
 	r.Cov["files"] = tot.Files
 	r.Cov["files_changed"] = tot.Changed
 	r.Cov["files_with_uniform_tests"] = tot.Uniform
 	r.Cov["distinct_nontrivial"] = tot.Changed
-	r.Cov["traces_validated_against_impl"] = validated
+	r.Cov["traces_validated_against_impl"] = validated + allRuns
 	r.Cov["exhaustive"] = len(deaths) == 0
 	r.Cov["bound"] = map[string]any{"line_kinds": len(c13Lines), "max_lines": spec.MaxLen, "variants": "LF/CRLF x final newline x 0-2 trailing blank lines (5-line files: LF, 0/2 trailing)", "names": ".yaml/.yml"}
 	r.Cov["rule"] = "all test files of <= n lines over the line kinds x variants, each explored as check(x), R(x), R(R(x)) on the real TestRenumberer (in-process); expected content from the reference reading (n-th id = n, n-th title = rule-n on files whose tests carry a uniform field set; all other lines byte-identical; one final newline); non-trivial = files that renumbering changes"
